@@ -56,6 +56,8 @@ def units(ctx):
             yield ("quads", i)
     yield from hist.hist_units()
     yield ("long",)
+    for k in range(8):
+        yield ("scale", k)
 
 
 def _mk(notes):
@@ -95,6 +97,28 @@ def gen_cases(unit, ctx):
                                ["scale", 7], ["chan", 11]]:
                         yield {"notes": [list(x) for x in ns], "events": [["ts", 0, 3, 4], ["ks", step * n // 2, "G"]],
                                "dur": end + 10, "build": build, "op": op}
+        return
+    if kind == "scale":
+        # scale ladder: 33 ... 1025 notes, tick distances in the thousands; few long notes among many short ones with the
+        # end of one long note at EVERY tick of a stretch (cut-off); padding targets far beyond the content
+        k = unit[1]
+        if k < 6:
+            n = lib.LADDER[k]
+            ns = [list(x) for x in lib.long_desc(n, p - 2, (c0, c1, 9), 10, lens=(3, 4, 2, 4))]
+            end = max(x[0] + x[1] for x in ns)
+            for build in ("abs", "rel"):
+                for op in [["pad", end + g] for g in lib.GAPS] + [["cutoff", 3, 2], ["scale", 3], ["chan", 11]]:
+                    yield {"notes": ns, "events": [["ts", 0, 3, 4]], "dur": end + 1, "build": build, "op": op}
+                for (s1, e1, s2, e2) in ((end // 4, end + 900, end // 8, end // 2), (end // 8, end // 2, end // 4, end + 900)):
+                    two = [[s1, e1 - s1, p + 7, c0, 99], [s2, e2 - s2, p + 7, c1, 98]]
+                    for op in (["cutoff", 12, 6], ["cutoff", 48, 24], ["scale", 2], ["pad", end + 2000]):
+                        yield {"notes": ns + two, "events": [], "dur": None, "build": build, "op": op}
+        else:
+            ns = [list(x) for x in lib.long_desc(42, p - 2, (c0, c1), 10, lens=(3, 4, 2, 4))]
+            first, second = (c0, c1) if k == 6 else (c1, c0)
+            for e2 in range(150, 420):
+                two = [[100, 900, p + 7, first, 99], [50, e2 - 50, p + 7, second, 98]]
+                yield {"notes": ns + two, "events": [], "dur": None, "build": "abs" if e2 % 2 else "rel", "op": ["cutoff", 24, 24]}
         return
     if kind == "hist":
         for h in hist.hist_of_unit(unit):
